@@ -107,7 +107,7 @@ func (env *specEnv) eval(x *Expr) (Val, error) {
 		}
 		return Val{Typ: types.Typ[types.UntypedInt], T: []Term{intLit(n)}}, nil
 	case "lit.float":
-		cv := constant.MakeFromLiteral(x.Name, token.FLOAT, 0)
+		cv := roundFloat64(constant.MakeFromLiteral(x.Name, token.FLOAT, 0))
 		return Val{Typ: types.Typ[types.UntypedFloat], T: []Term{realLit(cv)}}, nil
 	case "lit.bool":
 		if x.Name == "true" {
@@ -237,6 +237,12 @@ func (env *specEnv) eval(x *Expr) (Val, error) {
 	return Val{}, fmt.Errorf("unsupported spec expression %s", x)
 }
 
+// roundFloat64 rounds a constant to the nearest float64, as Go does when an untyped constant meets a float64.
+func roundFloat64(cv constant.Value) constant.Value {
+	f, _ := constant.Float64Val(constant.ToFloat(cv))
+	return constant.MakeFloat64(f)
+}
+
 func isUntyped(t types.Type) bool {
 	b, ok := t.(*types.Basic)
 	return ok && b.Info()&types.IsUntyped != 0
@@ -344,7 +350,12 @@ func (env *specEnv) pkgMember(pkg *ssa.Package, name string) (Val, bool, error) 
 	e := env.e
 	switch m := pkg.Members[name].(type) {
 	case *ssa.NamedConst:
-		return e.constantVal(m.Value.Value, m.Type()), true, nil
+		cv := m.Value.Value
+		if b, ok := m.Type().Underlying().(*types.Basic); ok && b.Info()&types.IsFloat != 0 && cv != nil {
+			// an untyped float constant is converted to float64 where the code uses it: same rounding here
+			cv = roundFloat64(cv)
+		}
+		return e.constantVal(cv, m.Type()), true, nil
 	case *ssa.Global:
 		lp := &LocPtr{Kind: pkGlobal, G: m, Key: m, BaseType: m.Type().(*types.Pointer).Elem()}
 		if env.a == nil {
